@@ -9,6 +9,7 @@
    gen_commit_term_ok et cur                    try_advance_commit_index: the entry at the new index is of the current term
    gen_entries_need_prev                        get_entries_for_follower sends entries only with a prev entry still in the log
    gen_gap_refused                              append_leader_entries refuses an entry that is not the direct successor of the log
+   gen_finalize_ok h c len                      finalize_to: the requested height is accepted
    (lastnew = index of the last entry the request carried, or prev_i when it carried none)"""
 import os
 import re
@@ -171,6 +172,29 @@ def generate(repo):
     except Exception as ex:
         items["gap_refused"] = "miss:%s" % ex
 
+    # ---- finalize_to: which heights are accepted
+    fin_ok = "(N.leb h c)"
+    try:
+        src = strip_comments(read(repo, "tensor_chain/src/raft.rs"))
+        _, body = find_fn(src, "finalize_to")
+        env = {"height": "h"}
+        for lm in re.finditer(r"let\s+(\w+)\s*=\s*([^;]+);", body):
+            rhs = lm.group(2)
+            if "commit_index" in rhs:
+                env[lm.group(1)] = "c"
+            elif "array_len_as_log_index" in rhs or "log.len()" in rhs:
+                env[lm.group(1)] = "len"
+        m = re.search(r"if\s+([^{]+?)\s*\{\s*return\s+Err\(", body, re.S)
+        if not m:
+            raise KeyError("rejection test not found")
+        rest = body[m.end():]
+        if re.search(r"return\s+Err\(", rest):
+            raise KeyError("more than one rejection test")
+        fin_ok = "(negb %s)" % coq(parse_expr(m.group(1)), Env(env))
+        items["finalize_ok"] = "translated"
+    except Exception as ex:
+        items["finalize_ok"] = "miss:%s" % ex
+
     text = HEADER + """From NV.Common Require Import Base.
 Open Scope N_scope.
 
@@ -193,5 +217,7 @@ Definition gen_commit_term_ok (et cur : N) : bool := %s.
 Definition gen_entries_need_prev : bool := %s.
 (* append_leader_entries: an entry beyond the end is pushed only if it is the direct successor of the log *)
 Definition gen_gap_refused : bool := %s.
-""" % (ack, com, stale, quorum, vote, prev, pick, cterm, need_prev, gap)
+(* finalize_to(height): accepted heights (c = commit_index, len = last log index) *)
+Definition gen_finalize_ok (h c len : N) : bool := %s.
+""" % (ack, com, stale, quorum, vote, prev, pick, cterm, need_prev, gap, fin_ok)
     return text, items
